@@ -185,6 +185,24 @@ func realiseBase(v J, r *Repr, path, h string) (any, error) {
 			return float32(n), nil
 		}
 		return n, nil
+	case "big":
+		// an integer beyond 32 bits: the narrowest 64-bit Go type that holds it
+		digits := bytesOf(v["digits"])
+		if jbool(v, "neg") {
+			n, err := strconv.ParseInt("-"+digits, 10, 64)
+			if err != nil {
+				return nil, err
+			}
+			return n, nil
+		}
+		if n, err := strconv.ParseInt(digits, 10, 64); err == nil && h != "uint64" {
+			return n, nil
+		}
+		n, err := strconv.ParseUint(digits, 10, 64)
+		if err != nil {
+			return nil, err
+		}
+		return n, nil
 	case "flt":
 		f := float64(jint(v, "n")) / float64(jint(v, "d"))
 		if h == "float32" {
@@ -219,6 +237,22 @@ func realiseBase(v J, r *Repr, path, h string) (any, error) {
 				t[i] = n
 			}
 			return t, nil
+		case "int64s", "int8s", "float64s":
+			i64, i8, f64 := make([]int64, len(out)), make([]int8, len(out)), make([]float64, len(out))
+			for i, e := range out {
+				n, ok := e.(int)
+				if !ok {
+					return nil, fmt.Errorf("repr %s: element %d is %T", h, i, e)
+				}
+				i64[i], i8[i], f64[i] = int64(n), int8(n), float64(n)
+			}
+			switch h {
+			case "int64s":
+				return i64, nil
+			case "int8s":
+				return i8, nil
+			}
+			return f64, nil
 		case "strings":
 			t := make([]string, len(out))
 			for i, e := range out {
